@@ -113,7 +113,7 @@ func nameFor(id int, cn string) pkix.Name {
 
 func makeCert(d certDesc) (*x509.Certificate, error) {
 	tmpl := &x509.Certificate{
-		SerialNumber:          big.NewInt(int64(1000 + d.id)),
+		SerialNumber:          big.NewInt(int64(1000 + d.id%500)), // ids 500+k reuse the serial number of id k: distinct certificates all the same
 		Subject:               nameFor(d.subj, d.cn),
 		NotBefore:             baseTime.Add(time.Duration(d.nb) * time.Hour),
 		NotAfter:              baseTime.Add(time.Duration(d.na) * time.Hour),
@@ -494,6 +494,22 @@ func genC10(r *rng, tier string, emit func(string)) {
 		}
 		if r.chance(1, 30) {
 			leaf.pool = "L"
+		}
+		// two DIFFERENT certificates with the same issuer name and serial number (a CA never issues that, an attacker
+		// does): identity of a certificate is its encoding, not (issuer, serial)
+		switch r.intn(12) {
+		case 0: // the leaf looks like a trusted root: its name, its serial, self-issued - another key, any signature
+			rt := certs[r.intn(nRoots)]
+			leaf.id, leaf.subj, leaf.iss, leaf.cn, leaf.icn = rt.id+500, rt.subj, rt.iss, rt.cn, rt.icn
+			leaf.key = 91
+			leaf.signer = r.pick([]int{91, 0})
+		case 1: // an intermediate with the serial number of the root that issued it
+			for k := range certs {
+				if certs[k].pool == "i" && certs[k].iss >= 10 && certs[k].iss < 10+nRoots {
+					certs[k].id = (certs[k].iss - 10 + 1) + 500 // roots have ids 1..nRoots
+					break
+				}
+			}
 		}
 		certs = append(certs, leaf)
 		// randomise pool insertion order (the result must not depend on it)
